@@ -8,11 +8,26 @@ pub mod util;
 
 pub mod c01;
 pub mod dec;
+pub mod enc;
+pub mod schemas;
+pub mod dec2;
+pub mod c13;
+pub mod c19;
+pub mod c12;
+pub mod c14;
+pub mod c18;
 
 /// All harness bodies, for the native replayer.
 pub fn registry() -> Vec<(&'static str, fn())> {
     let mut v: Vec<(&'static str, fn())> = Vec::new();
     v.extend_from_slice(c01::HARNESSES);
     v.extend_from_slice(dec::HARNESSES);
+    v.extend_from_slice(enc::HARNESSES);
+    v.extend_from_slice(dec2::HARNESSES);
+    v.extend_from_slice(c13::HARNESSES);
+    v.extend_from_slice(c19::HARNESSES);
+    v.extend_from_slice(c12::HARNESSES);
+    v.extend_from_slice(c14::HARNESSES);
+    v.extend_from_slice(c18::HARNESSES);
     v
 }
